@@ -35,14 +35,23 @@ class System:
         pass
 
 
-def replay(system, hist):
-    """Rebuild the state reached by hist. Returns (ctx, model, problems_of_last_step)."""
+def replay(system, hist, want_key=False):
+    """Rebuild the state reached by hist. Returns (ctx, model, problems_of_last_step[, key]).
+    The state key is taken *before* the check runs: the check's own reads (probes, views) may fill caches, and a key
+    computed afterwards would merge 'edit' with 'edit, then read' and hide stale-cache behaviour."""
     ctx, model = system.fresh()
     problems = []
+    key = None
     for i, op in enumerate(hist):
         model, obs = system.apply(ctx, model, op)
         if i == len(hist) - 1:
+            if want_key:
+                key = system.key(ctx, model)
             problems = system.check(ctx, model, op, obs)
+    if want_key:
+        if not hist:
+            key = system.key(ctx, model)
+        return ctx, model, problems, key
     return ctx, model, problems
 
 
@@ -54,8 +63,7 @@ def explore(system, depth, report, prop, roots=((),), stats=None, merge=True):
     nstates = ntrans = nchecks = 0
     maxdepth = 0
     for r in roots:
-        ctx, model, _ = replay(system, list(r))
-        k = system.key(ctx, model)
+        ctx, model, _, k = replay(system, list(r), want_key=True)
         system.cleanup(ctx)
         if k not in seen:
             seen.add(k)
@@ -70,7 +78,7 @@ def explore(system, depth, report, prop, roots=((),), stats=None, merge=True):
         system.cleanup(ctx)
         for op in ops:
             nh = hist + [op]
-            ctx, model, problems = replay(system, nh)
+            ctx, model, problems, k0 = replay(system, nh, want_key=True)
             ntrans += 1
             nchecks += 1
             maxdepth = max(maxdepth, len(nh))
@@ -79,7 +87,7 @@ def explore(system, depth, report, prop, roots=((),), stats=None, merge=True):
                     report.violate(sig, f"history {nh}: {desc}", {"engine": "E2", "history": nh}, len(nh))
                 system.cleanup(ctx)
                 continue
-            k = system.key(ctx, model) if merge else tuple(nh)
+            k = k0 if merge else tuple(nh)
             system.cleanup(ctx)
             if k not in seen:
                 seen.add(k)
